@@ -162,6 +162,15 @@ var frags = []*Frag{
 	}},
 	{Name: "matrix-ok", Clean: true, Jobs: []FragJob{{ID: "{P}mx", Body: "    strategy:\n      matrix:\n        os: [ubuntu-latest, macos-latest]\n        node: [18, 20]\n        include:\n          - os: ubuntu-latest\n            extra: yes\n    runs-on: ${{ matrix.os }}\n    steps:\n      - run: echo ${{ matrix.node }} ${{ matrix.extra }}\n"}}},
 	{Name: "matrix-undefined", Jobs: []FragJob{{ID: "{P}mxu", Body: "    strategy:\n      matrix:\n        os: [ubuntu-latest]\n        targets:\n          - os: a\n            arch: b\n          - os: c\n            arch: d\n    runs-on: ${{ matrix.os }}\n    steps:\n      - run: echo ${{ matrix.nope }}\n      - run: echo ${{ join(matrix.targets.*.os, ',') }}\n      - run: echo ${{ join(matrix.targets.*.arch, ',') }}\n"}}},
+	// three services with hard-coded credentials, an untrusted expression in env and an unknown context each: service map order
+	{Name: "services-three", Tie: true, Jobs: []FragJob{{ID: "{P}sv3", Body: "    runs-on: ubuntu-latest\n    services: {db: {image: postgres, credentials: {username: u, password: p1}, env: {A: \"${{ nope.x }}\"}}, cache: {image: redis, credentials: {username: u, password: p2}, env: {B: \"${{ nope.y }}\"}}, mq: {image: rabbit, credentials: {username: u, password: p3}, env: {C: \"${{ nope.z }}\"}}}\n    steps:\n      - run: echo\n"}}},
+	// a job with several outputs needed by a job that reads them (and one that does not exist)
+	{Name: "needs-many-outputs", Jobs: []FragJob{
+		{ID: "{P}mo1", Body: "    runs-on: ubuntu-latest\n    outputs:\n      alpha: a\n      beta: b\n      gamma: c\n      delta: d\n    steps:\n      - run: echo\n"},
+		{ID: "{P}mo2", Body: "    needs: [{P}mo1]\n    runs-on: ubuntu-latest\n    steps:\n      - run: echo ${{ needs.{P}mo1.outputs.alpha }} ${{ needs.{P}mo1.outputs.delta }} ${{ needs.{P}mo1.outputs.epsilon }} ${{ toJSON(needs) }}\n"},
+	}},
+	// matrix rows and include rows holding objects with several properties: object assignability and merging
+	{Name: "matrix-object-rows", Jobs: []FragJob{{ID: "{P}mor", Body: "    strategy:\n      matrix:\n        cfg: [{a: 1, b: x, c: true}, {a: 2, b: y, c: false}]\n        include:\n          - cfg: {a: 3, b: z, c: true, d: extra}\n          - cfg: {a: s, b: 1}\n            other: {p: 1, q: 2}\n          - other: {p: x, q: y, r: z}\n    runs-on: ubuntu-latest\n    steps:\n      - run: echo ${{ matrix.cfg.a }} ${{ matrix.cfg.d }} ${{ matrix.cfg.nope }} ${{ matrix.other.p }} ${{ matrix.other.zzz }}\n"}}},
 	{Name: "matrix-objfilter", Jobs: []FragJob{{ID: "{P}mof", Body: "    strategy:\n      matrix:\n        include:\n          - name: first\n            targets: [{os: linux, arch: x64}, {os: darwin, arch: arm64}]\n            nums: [1, 2]\n    runs-on: ubuntu-latest\n    steps:\n      - run: echo \"${{ join(matrix.targets.*.os, ',') }}\"\n      - run: echo \"${{ join(matrix.targets.*.arch, ',') }}\"\n      - run: echo \"${{ matrix.targets.*.nope }} ${{ matrix.nums.*.x }}\"\n      - run: echo \"${{ matrix.targets[0].os }} ${{ toJSON(matrix.targets) }}\"\n"}}},
 	{Name: "no-matrix-ref", Jobs: []FragJob{{ID: "{P}nomx", Body: "    runs-on: ubuntu-latest\n    steps:\n      - run: echo ${{ matrix.foo }}\n"}}},
 	{Name: "uses-job-with-matrix", Assets: []string{"wf-opt"}, Clean: true, Jobs: []FragJob{{ID: "{P}call", Body: "    strategy:\n      matrix:\n        foo: [1, 2]\n    uses: ./.github/workflows/reuse-opt.yml\n    with:\n      note: n${{ matrix.foo }}\n"}}},
